@@ -139,7 +139,9 @@ func init() {
 			m := spec.V{T: spec.Map(spec.Number), St: spec.Known, Keys: []string{"a", "b"}, Elems: []spec.V{intv(t, 0, 9, "a"), intv(t, 0, 9, "b")}}
 			return []spec.V{m}
 		default:
-			return []spec.V{val(t, spec.Object(spec.Attr{Name: "a", T: spec.String}, spec.Attr{Name: "b", T: spec.String}), simple, "v")}
+			o := spec.V{T: spec.Object(spec.Attr{Name: "a", T: spec.String}, spec.Attr{Name: "b", T: spec.String}), St: spec.Known, Keys: []string{"a", "b"},
+				Elems: []spec.V{sstr(t, "a"), lit(pickStr(t, "numstr", "1", "-2.5", "10", "0", "true", "x"))}}
+			return []spec.V{o}
 		}
 	}})
 }
